@@ -61,7 +61,9 @@ def strip_docs(code):
 _STR = re.compile(r'"(?:[^"\\]|\\.)*"')
 def code_idents(code):
     """identifier tokens of the code outside doc comments and string literals"""
-    return re.findall(r"[A-Za-z_][A-Za-z0-9_]*", _STR.sub('""', strip_docs(code)))
+    # a path segment after `::` (`::serde_json::Value`, `error::ConversionError`) is not a bare name of this module
+    flat = re.sub(r"\s*::\s*", "::", _STR.sub('""', strip_docs(code)))
+    return re.findall(r"(?<![A-Za-z0-9_:])[A-Za-z_][A-Za-z0-9_]*", flat)
 
 def sub_ident(s, old, new):
     """replace the bare type identifier `old` (not a path segment) in a whitespace-free type string"""
